@@ -26,7 +26,7 @@ structure Attribute where
   size : Option Int := none
   encrypt : Option Int := none
   hasTag : Option Bool := none
-  concat : Option Bool := none
+  isConcat : Option Bool := none
 deriving DecidableEq, Repr
 
 /-- dictionary.Value -/
